@@ -15,7 +15,9 @@ func c25(r *core.Run) {
 		"CanBorrow(wanted, capability type) (when a type is requested), a successful controller lookup, and CanBorrow(wanted, controller type); CanBorrow consults both the authorization (PermitsAccess) and the subtype relation; " +
 		"(R2) capability IDs: the error of GenerateAccountID is never dropped (C28.R2) and issue functions store the generated ID in the controller they create."
 	r.NotDecided = "the controller model over histories (revocation, retargeting, publishing, inbox)."
-	named := func(n string) func(*types.Func) bool { return func(o *types.Func) bool { return o != nil && o.Name() == n } }
+	named := func(n string) func(*types.Func) bool {
+		return func(o *types.Func) bool { return o != nil && o.Name() == n }
+	}
 	// R1a who may call ReferenceValue of capability controllers
 	isCtrlRef := func(o *types.Func) bool {
 		if o == nil || o.Name() != "ReferenceValue" {
